@@ -33,7 +33,9 @@ MIN = {'quick': {'distinct': 600,
                  'strata': {'lex_in_grammar': 200, 'lopar refused': 50,
                             'latin-1': 100, 'binarized': 300,
                             'cli rcg as input': 5, 'ambiguous word': 300,
-                            'cli binarized markov': 10, 'fan-out >= 10': 30}},
+                            'cli binarized markov': 10, 'fan-out >= 10': 30,
+                            'lopar: production both continuous and '
+                            'discontinuous': 10}},
        'thorough': {'distinct': 30000, 'hooks': {'cli.grammar': 1200}}}
 
 
@@ -99,6 +101,21 @@ def make_bank(rng, cont, enc):
                              moves=0 if cont else rng.choice([0, 1, 2, 4]),
                              sid=j + 1,
                              root_pieces=rng.choice([1, 1, 2])))
+    if not cont and rng.random() < 0.4 and bank:
+        # the same productions once continuous and once discontinuous: a copy
+        # of a continuous tree with two token positions exchanged
+        import copy
+        base = gen.tree(rng, rng.randint(4, 8), pools, max_arity=3,
+                        p_unary=0.1, moves=0, sid=len(bank) + 1)
+        twin = copy.deepcopy(base)
+        twin['sid'] = len(bank) + 2
+        toks = sorted(gen.tokens_of(twin['root']), key=lambda t: t['n'])
+        i = rng.randrange(len(toks) - 2)
+        toks[i]['n'], toks[i + 2]['n'] = toks[i + 2]['n'], toks[i]['n']
+        pair = [base, twin]
+        if rng.random() < 0.5:
+            pair.reverse()
+        bank.extend(pair)
     return bank
 
 
@@ -228,6 +245,10 @@ def run_api(ctx, case, rng):
     counts = expected_counts(grammar)
     lexicon = to_repo_lexicon(lex)
     disc = any(len(l) > 1 for (f, l) in counts)
+    both = set(f for (f, l) in counts if len(l) > 1) & \
+        set(f for (f, l) in counts if len(l) == 1)
+    if both and fmt == 'lopar':
+        ctx.stratum('lopar: production both continuous and discontinuous')
     prefix = ctx.path('.gram')
     params = {'lex_in_grammar': True} if lig else {}
     exc = None
